@@ -21,6 +21,8 @@ def run(ctx):
         hs.append(h)
     for _ in range(ctx.n(300, 4000)):
         hs.append(F.random_history(ctx.rng, True, ctx.n(12, 50)))
+    for _ in range(ctx.n(80, 1500)):
+        hs.append(F.duplicate_history(ctx.rng))      # the same URI named more than once in one request
     okc = F.run_histories(ctx, hs, "C19")
     ctx.sample({"history": hs[len(hs) // 2]})
     ctx.sample({"history": hs[-1]})
